@@ -466,6 +466,8 @@ def write_evidence(ctx, level, rule, extra=None, trusted=None, checker_cmd=None)
         "layers": ctx.cov["layers"],
         "known_findings_replayed": ctx.known_hits,
     }
+    if ctx.cov.get("distribution"):
+        cov["input_distribution"] = ctx.cov["distribution"]
     ops = sum(s["ops"] for s in ctx.cov["streams"].values())
     runs = sum(l.get("runs", 0) for l in ctx.cov["layers"].values())
     cov["evaluations"] = ops + runs
